@@ -268,6 +268,19 @@ class Layouts:
                 elif isinstance(v, (ast.ListComp, ast.GeneratorExp)) and len(v.generators) == 1 and self._is_effect(v.elt):
                     g = v.generators[0]
                     self._loop_effects(g.iter, g.target, [(v.elt, st)], [v.elt], st, bool(g.ifs))
+                elif isinstance(v, ast.Call):
+                    # anything that re-orders or edits a tracked list in place makes its layout unknown: X.sort(), X.reverse(),
+                    # X.pop(..), X.remove(..), X.clear(), shuffle(X)
+                    f = v.func
+                    if isinstance(f, ast.Attribute) and f.attr in ("sort", "reverse", "pop", "remove", "clear", "insert", "__setitem__"):
+                        key = self._key(f.value)
+                        if key in self.state:
+                            self.state[key] = UNKNOWN
+                    nm = f.attr if isinstance(f, ast.Attribute) else f.id if isinstance(f, ast.Name) else None
+                    if nm in ("shuffle",) and v.args:
+                        key = self._key(v.args[0])
+                        if key in self.state:
+                            self.state[key] = UNKNOWN
                 continue
             if isinstance(st, ast.For):
                 add = self._loop_layouts(st, {}, 0)
